@@ -85,11 +85,15 @@ func bytesToInts(b []byte) []int {
 }
 
 // midiAcc runs accessor i (index into midiAccNames) on m.
-func midiAcc(i int, m midi.Message, want bool) (bool, [3]int, []byte) {
+// poison: the output variables hold other values (0xA5..) before the call -- an accessor that accepts must overwrite them all
+func midiAcc(i int, m midi.Message, poison bool) (bool, [3]int, []byte) {
 	var a, b, c uint8
 	var rel int16
 	var abs, spp uint16
 	var sx []byte
+	if poison {
+		a, b, c, rel, abs, spp, sx = 0xA5, 0xA5, 0xA5, 0x2A5A, 0xA5A5, 0xA5A5, []byte{0xA5}
+	}
 	switch i {
 	case 0:
 		if m.GetNoteOn(&a, &b, &c) {
@@ -145,6 +149,9 @@ func allMidiAcc(m midi.Message) map[string]accRes {
 	r := map[string]accRes{}
 	for i, n := range midiAccNames {
 		ok, v, sx := midiAcc(i, m, false)
+		if ok2, v2, sx2 := midiAcc(i, m, true); ok2 != ok || (ok && (v2 != v || string(sx2) != string(sx))) {
+			ok, v, sx = ok2, v2, sx2 // the answer depends on what the variables held before: report the other one
+		}
 		a := accRes{Ok: ok, Out: []int{}, Single: []int{}}
 		if ok {
 			if i == 10 {
@@ -393,6 +400,10 @@ func (t *Tables) checkCall(fn string, a []int, lp *loop) string {
 		mi := matchIdx[fn]
 		for i := range midiAccNames {
 			ok, v, _ := midiAcc(i, m, false)
+			if ok2, v2, _ := midiAcc(i, m, true); ok2 != ok || (ok && v2 != v) {
+				why = "accessor answer depends on the previous content of its output variables"
+				return
+			}
 			if i == mi {
 				if !ok {
 					why = "matching accessor rejects"
